@@ -299,6 +299,20 @@ def atoms(test: ast.AST, positive: bool = True) -> list[tuple[str, bool]]:
     `a and b` true -> both; `a or b` false -> both negated; otherwise the whole expression is one atom."""
     if isinstance(test, ast.UnaryOp) and isinstance(test.op, ast.Not):
         return atoms(test.operand, not positive)
+    if isinstance(test, ast.IfExp):
+        # a conditional expression with a constant arm is a conjunction / disjunction in disguise
+        def _c(x: ast.AST) -> bool | None:
+            return x.value if isinstance(x, ast.Constant) and isinstance(x.value, bool) else None
+        nt = ast.UnaryOp(op=ast.Not(), operand=test.test)
+        b, o = _c(test.body), _c(test.orelse)
+        if b is False:
+            return atoms(ast.BoolOp(op=ast.And(), values=[nt, test.orelse]), positive)
+        if b is True:
+            return atoms(ast.BoolOp(op=ast.Or(), values=[test.test, test.orelse]), positive)
+        if o is False:
+            return atoms(ast.BoolOp(op=ast.And(), values=[test.test, test.body]), positive)
+        if o is True:
+            return atoms(ast.BoolOp(op=ast.Or(), values=[nt, test.body]), positive)
     if isinstance(test, ast.BoolOp):
         if isinstance(test.op, ast.And) and positive or isinstance(test.op, ast.Or) and not positive:
             out = []
@@ -485,3 +499,101 @@ def is_suspension(n: ast.AST) -> bool:
 
 def contains(root: ast.AST, target: ast.AST) -> bool:
     return any(x is target for x in ast.walk(root))
+
+
+# ---------------------------------------------------------------------------- case analysis on a finite-domain subject
+
+
+def specialize(test: ast.AST, subject: str, value: str, domain: Iterable[str]) -> ast.AST:
+    """Partially evaluate ``test`` knowing that the expression whose source is ``subject`` equals the domain member whose
+    source is ``value`` (members are pairwise distinct). Comparisons of the subject with a domain member fold to constants,
+    and/or/not fold around them; everything else is kept."""
+    domain = set(domain)
+
+    def const(b: bool) -> ast.Constant:
+        return ast.Constant(value=b)
+
+    def is_const(e: ast.AST) -> bool | None:
+        return e.value if isinstance(e, ast.Constant) and isinstance(e.value, bool) else None
+
+    def rec(e: ast.AST) -> ast.AST:
+        if isinstance(e, ast.Compare) and len(e.ops) == 1:
+            l, r, op = ast.unparse(e.left), ast.unparse(e.comparators[0]), e.ops[0]
+            if l in domain and r == subject:
+                l, r = r, l
+            if l == subject and r in domain and isinstance(op, (ast.Eq, ast.Is, ast.NotEq, ast.IsNot)):
+                same = r == value
+                return const(same if isinstance(op, (ast.Eq, ast.Is)) else not same)
+            if l == subject and isinstance(op, (ast.In, ast.NotIn)) and isinstance(e.comparators[0], (ast.Tuple, ast.List, ast.Set)):
+                elts = [ast.unparse(x) for x in e.comparators[0].elts]
+                if all(x in domain for x in elts):
+                    return const((value in elts) if isinstance(op, ast.In) else (value not in elts))
+            return e
+        if isinstance(e, ast.UnaryOp) and isinstance(e.op, ast.Not):
+            v = rec(e.operand)
+            c = is_const(v)
+            return const(not c) if c is not None else ast.UnaryOp(op=ast.Not(), operand=v)
+        if isinstance(e, ast.BoolOp):
+            vals = [rec(v) for v in e.values]
+            absorbing = isinstance(e.op, ast.Or)
+            keep = []
+            for v in vals:
+                c = is_const(v)
+                if c is None:
+                    keep.append(v)
+                elif c == absorbing:
+                    # `True or …` / `False and …` — but only operands *before* it are evaluated; the result is decided anyway
+                    return const(absorbing)
+            if not keep:
+                return const(not absorbing)
+            return keep[0] if len(keep) == 1 else ast.BoolOp(op=e.op, values=keep)
+        return e
+
+    return rec(test)
+
+
+def facts_given(cfg: CFG, node: Node, subject: str, value: str, domain: Iterable[str], mod=None) -> tuple[bool, set[tuple[str, bool]]]:
+    """(reachable, facts): can ``node`` be reached on a normal path when ``subject == value``, and which atomic facts hold
+    on every such path (branch conditions are specialised to the case before they are split into atoms)."""
+    from .index import enclosing_class, module_of
+    domain = list(domain)
+    lx = ("exc", "cancel")
+    infeasible: list[tuple[Node, str]] = []
+    spec: dict[Node, ast.AST] = {}
+    for t in cfg.nodes:
+        if t.kind != "test" or not hasattr(t.ast, "test"):
+            continue
+        sp = specialize(t.ast.test, subject, value, domain)
+        spec[t] = sp
+        if isinstance(sp, ast.Constant) and isinstance(sp.value, bool):
+            infeasible.append((t, "F" if sp.value else "T"))
+    if node not in cfg.reach([cfg.entry], blocked_edges=infeasible, labels_excluded=lx):
+        return False, set()
+    facts: set[tuple[str, bool]] = set()
+    mod = mod if mod is not None else (module_of(cfg.fn) if cfg.fn is not None else None)
+    cls = enclosing_class(cfg.fn) if cfg.fn is not None else None
+    for e in cfg.branch_edges():
+        t, label = e
+        if e in infeasible or t not in spec or label not in ("T", "F"):
+            continue
+        if node not in cfg.reach([cfg.entry], blocked_edges=infeasible + [e], labels_excluded=lx):
+            for a in atoms(spec[t], label == "T"):
+                facts.add(a)
+                for b in atoms(expand(ast.parse(a[0], mode="eval").body, t.ast, depth=3), a[1]) if _parses(a[0]) else ():
+                    facts.add(b)
+    if mod is not None:
+        from .inline import implied_facts
+        for a, pol in list(facts):
+            if _parses(a):
+                c = ast.parse(a, mode="eval").body
+                if isinstance(c, ast.Call):
+                    facts |= implied_facts(mod, c, pol, cls, 2)
+    return True, facts
+
+
+def _parses(txt: str) -> bool:
+    try:
+        ast.parse(txt, mode="eval")
+        return True
+    except SyntaxError:
+        return False
